@@ -450,10 +450,12 @@ fn general_case(ctx: &Ctx, env: &RealEnv, dir: &std::path::Path, case: u64, seed
             }
         }
         let nonphony: Vec<String> = w.proj.steps.iter().filter(|s| !s.phony && s.effect != Effect::Generator).map(|s| s.id.clone()).collect();
-        let fault_p = if prop == "C05" { 3 } else { 1 };
+        let fault_p = if prop == "C05" { 3 } else if prop == "C09" { 2 } else { 1 };
         if rng.chance(fault_p, 5) && !nonphony.is_empty() && matches!(prop, "C05" | "C01" | "C04" | "C19" | "C02" | "C09") {
+            // C09: a failing compiler prints its include notes too -- prefer steps that print some
+            let noisy: Vec<String> = w.proj.steps.iter().filter(|s| s.msvc && s.depfile.is_none() && s.discovers && !s.extra_reads.is_empty()).map(|s| s.id.clone()).collect();
             for _ in 0..rng.range(1, 2) {
-                let s = rng.pick(&nonphony).clone();
+                let s = if prop == "C09" && !noisy.is_empty() && rng.chance(1, 2) { rng.pick(&noisy).clone() } else { rng.pick(&nonphony).clone() };
                 inv.faults.insert(s.clone(), *rng.pick(&[FailMode::Nothing, FailMode::All, FailMode::Some]));
                 let how = rng.below(5);
                 if how < 2 {
